@@ -85,6 +85,12 @@ func asInt(v any) (int64, bool) {
 		return int64(t), true
 	case uint32:
 		return int64(t), true
+	case uint:
+		return int64(t), true
+	case uint64:
+		// (the generator uses values above MaxInt64 only as the same leaf on both sides or against another
+		// such value: two's complement keeps both "equal" and "different" right for those)
+		return int64(t), true
 	}
 	return 0, false
 }
@@ -562,17 +568,71 @@ func subFingerprint(r *rand.Rand, t any) any {
 	return t
 }
 
+// hugeLeaves replaces some positive int64 leaves by uint64 values above MaxInt64.
+func hugeLeaves(r *rand.Rand, v any) any {
+	switch t := v.(type) {
+	case int64:
+		if t > 0 && r.Intn(2) == 0 {
+			return uint64(1<<63) + uint64(t)
+		}
+	case []any:
+		for i, e := range t {
+			t[i] = hugeLeaves(r, e)
+		}
+	case map[string]any:
+		for k, e := range t {
+			t[k] = hugeLeaves(r, e)
+		}
+	}
+	return v
+}
+
+// bumpHuge adds one to some of the uint64 leaves.
+func bumpHuge(r *rand.Rand, v any) any {
+	switch t := v.(type) {
+	case uint64:
+		if r.Intn(2) == 0 {
+			return t + 1
+		}
+	case []any:
+		for i, e := range t {
+			t[i] = bumpHuge(r, e)
+		}
+	case map[string]any:
+		for k, e := range t {
+			t[k] = bumpHuge(r, e)
+		}
+	}
+	return v
+}
+
 func widen(r *rand.Rand, v any) any {
 	switch t := v.(type) {
 	case int64:
 		if t > -100 && t < 100 {
-			switch r.Intn(4) {
+			switch r.Intn(9) {
 			case 0:
 				return int(t)
 			case 1:
 				return int8(t)
 			case 2:
 				return int32(t)
+			case 3:
+				return int16(t)
+			}
+			if t >= 0 {
+				switch r.Intn(6) {
+				case 0:
+					return uint8(t)
+				case 1:
+					return uint16(t)
+				case 2:
+					return uint32(t)
+				case 3:
+					return uint(t)
+				case 4:
+					return uint64(t)
+				}
 			}
 		}
 		return t
@@ -625,6 +685,14 @@ func run(c *mon.Ctx) {
 			b = noMixedNum(cfg.Tree(r))
 			label = "unrelated"
 		default:
+			if r.Intn(3) == 0 {
+				// ids and hashes: uint64 leaves above MaxInt64, the same on both sides or differing by one
+				a = hugeLeaves(r, a)
+				b = treegen.Dup(a)
+				if r.Intn(2) == 0 {
+					b = bumpHuge(r, b)
+				}
+			}
 			b = widen(r, b)
 			a = widen(r, a)
 			label = "width-variant"
